@@ -46,6 +46,8 @@ class Contract:
     trusted: bool = False                      # contract assumed, body not verified (listed in evidence)
     note: str = ''
     lemma: bool = False                        # pure spec lemma: no code, goal must be valid
+    raises_assumed: bool = False               # the exceptional postcondition is assumed for callers, not checked on the body
+    slices: int = 1                            # solve the obligations of this function in this many parallel slices
     preamble: bool = False                     # closures: execute the enclosing function up to the def to obtain the environment
     table: bool = False                        # module-level value (literal table / stock object)
 
@@ -87,7 +89,7 @@ class Sidecar:
                         and st.value.func.id in ('SPEC', 'LEMMA', 'TABLE'):
                     self._spec(st.value, fn)
             for ln, line in enumerate(src.splitlines(), 1):
-                if any(w in line for w in ('assumes=', 'trusted=True')):
+                if any(w in line for w in ('assumes=', 'trusted=True', 'raises_assumed=True')):
                     self.assumption_scan.append(f'{fn}:{ln}: {line.strip()[:120]}')
 
     def _lit(self, node):
@@ -145,7 +147,7 @@ class Sidecar:
                 con.invariants = {self._lit(kk): vv for kk, vv in zip(v.keys, v.values)}
             elif k == 'variants':
                 con.variants = {self._lit(kk): vv for kk, vv in zip(v.keys, v.values)}
-            elif k in ('total', 'result_kind', 'result_fresh', 'result_opaque', 'preamble', 'mutable', 'frame', 'props', 'total_attr_roots', 'trusted', 'note'):
+            elif k in ('total', 'result_kind', 'result_fresh', 'result_opaque', 'preamble', 'slices', 'raises_assumed', 'mutable', 'frame', 'props', 'total_attr_roots', 'trusted', 'note'):
                 setattr(con, k, self._lit(v))
             elif k == 'goal' and is_lemma:
                 con.ensures = self._clauses(v, 'lemma')
@@ -196,6 +198,7 @@ class Engine(Core, Expr, Calls, Builtins, Stmts):
         self.kept_cache = set()
         self.frame_sites = set()
         self.alias_cache = {}
+        self.loop_ids = {}
         self.func_summ = set()
         self.notes = []
         self.lemma_sink = None
@@ -247,6 +250,17 @@ class Engine(Core, Expr, Calls, Builtins, Stmts):
         self.exc_props = (con.raises[1] if con.raises else (con.no_raise or ['C04']))
         self.total_attr_roots = set(con.total_attr_roots)
         fnode = fi.node
+        # syntactic loop ordinals of this function
+        n_loop = 0
+        stack = list(reversed(fnode.body))
+        while stack:
+            nd = stack.pop()
+            if isinstance(nd, (ast.FunctionDef, ast.Lambda, ast.ClassDef)):
+                continue
+            if isinstance(nd, (ast.For, ast.While)):
+                self.loop_ids[id(nd)] = n_loop
+                n_loop += 1
+            stack.extend(reversed([c for c in ast.iter_child_nodes(nd) if isinstance(c, (ast.stmt, ast.ExceptHandler))]))
         a = fnode.args
         env: Dict[str, SV] = {}
         pnames = [p.arg for p in a.posonlyargs + a.args + a.kwonlyargs]
@@ -338,7 +352,7 @@ class Engine(Core, Expr, Calls, Builtins, Stmts):
                 exc: VExc = v
                 xenv = dict(self.entry_env)
                 xenv['exc'] = exc
-                if con.raises is not None:
+                if con.raises is not None and not con.raises_assumed:
                     g = self.eval_clause(con.raises[0], xenv, s)
                     self.emit(Obligation(con.key, 'exc', label, con.raises[1], list(s.pc), g,
                                          origin=f'exception leaving the function is allowed (raised at {exc.origin})', path_kind='raise'))
